@@ -20,7 +20,7 @@ RULE = ("for each sampled (scenario, schedule) the fault-free history is recorde
         "exactly that fault; distinct+non-trivial = distinct (scenario, schedule, fault point) whose "
         "fault actually fired")
 
-STEP_KINDS = ("float", "str", "list", "same", "earlier", "negative")
+STEP_KINDS = ("float", "float_integral", "str", "list", "same", "earlier", "negative")
 DATA_KINDS = ("past_time", "far_past")
 
 
